@@ -65,7 +65,10 @@ def do_import(src, name):
     meta = json.load(open(os.path.join(src, "meta.json")))
     patch = os.path.join(src, "patch.diff")
     with Scratch(name) as wt:
-        shutil.copy(os.path.join(src, "demo.py"), os.path.join(wt, "_demo.py"))
+        txt = open(os.path.join(src, "demo.py")).read()
+        import re
+        txt = re.sub(r"/tmp/seed/C\d\d", wt, txt)        # demos written against the seeding worktree's path
+        open(os.path.join(wt, "_demo.py"), "w").write(txt)
         rc0, out0 = demo(wt, "_demo.py")
         rc, out = apply_patch(wt, patch)
         if rc:
